@@ -59,7 +59,8 @@ def check(repo, res, tier):
         if P == rt:
             res.ok('C15.Y2', f, r, 'return <- the runtime itself')
             continue
-        m = re.fullmatch(r'(?P<S>.+)\[\((?P=S) (?P<op>>=?) %s\)\]\[(?P<i>.*)\]' % re.escape(rt), P)
+        m = re.fullmatch(r'(?P<S>.+)\[\((?P=S) (?P<op>>=?) %s\)\]\[(?P<i>.*)\]' % re.escape(rt), P) or \
+            re.fullmatch(r'(?P<S>.+)\[\(%s (?P<op><=?) (?P=S)\)\]\[(?P<i>.*)\]' % re.escape(rt), P)      # mean < sample
         if m:
             res.ok('C15.Y2', f, r, what, 'filter %s mean' % m.group('op'))
         else:
